@@ -558,6 +558,18 @@ def corr_games(res, games, kind_on_mismatch, label, drv=None, exact_sample=(24, 
     list of (game, impl, model)"""
     drv = drv or Driver()
     outs = drv.run([rate_line(g) for g in games])
+    # every 4th game also through the literal loop-shaped model (OSModel/Loops.lean, op RLOOP): it must agree with the closed-form model
+    # BIT FOR BIT at Float (the equality theorems `rateLoop_eq` assume three IEEE laws — a-b = a+-b, 1*a = a, 0+a = a — which Float,
+    # being opaque to the kernel, can only exhibit by running), so the comparison with the implementation covers the literal loops too
+    lsub = games[::4]
+    if lsub:
+        louts = drv.run(["RLOOP" + rate_line(g)[4:] for g in lsub])
+        cf = dict((id(g), o) for g, o in zip(games, outs))
+        for g, lo in zip(lsub, louts):
+            res.count("literal_loop_model_vs_closed_form_games")
+            if lo != cf[id(g)] and not any(m == 0.0 and math.copysign(1.0, m) < 0 for t in g["teams"] for (m, _s) in t):
+                res.fail("correspondence", "%s: the literal loop-shaped model (rateLoop) and the closed-form model (rate) differ at Float" % label,
+                         dict(type="game", game=g))
     results = []
     for g, o in zip(games, outs):
         impl = run_impl_rate(g)
